@@ -15,6 +15,9 @@ SPEC = {
         "both timer flavours); tied to the compiled code by the differential run only",
         "frozen specification lean/N2k/Spec/Iso11783.lean (wire format of PGN 60928, arbitration rule, commanded address) and its C++ "
         "twin in harness/claim.cpp (struct Foreign), both written from the public description of ISO 11783-5 / J1939-81",
+        "N2k/Model/ClaimRx.lean composes the claim instance with the C02 receive-slot model N2k/Model/Rx.lean (level-1 engine ops go "
+        "through it) and adds the application's SendMsg; the n-node bus theorems are stated on the claim instance (slot hypothesis "
+        "discharged separately by C03_claim_not_lost)",
         "N2k/Model/Bus.lean: the bus is an atomic broadcast with FIFO inboxes; frames other than PGN 60928 (heartbeat, ISO-TP flow "
         "control) are not on the model bus; the ISO-TP reassembly of PGN 65240 is NOT modelled (the harness feeds BAM/RTS+DT frames to "
         "the real code, the model receives the reassembled (destination, NAME, address) triple)",
@@ -28,6 +31,10 @@ SPEC = {
         "distinct among the devices of one instance, foreign next-address choice < 256",
         "a node that is not open / not started has no address on the bus, receives nothing and announces every device when it opens",
         "one received item (claim frame or commanded-address message) per ParseMessages call in the bus model",
+        "a receive slot is free or recyclable (oldest unfinished message >= 100 ms old, modulo 2^32) when a claim / commanded "
+        "address arrives (C03_claim_not_lost / C03_commanded_not_lost; needed: C03_claim_lost_when_slots_busy). The class with all "
+        "5 slots taken by unfinished messages younger than 100 ms is outside the property's quantifier: generated, compared with "
+        "the model, not judged (counter rx_slots_busy_not_judged; notes/C03_rx_slots_busy_observation.md)",
         "liveness (a quiescent state is reached) is not proved - C03_converges_partial is the per-device progress measure; "
         "convergence is explored by the harness (all schedules of 2-3 claimants, sampled 4-6, full-range wall)",
         "dm_None; uint8_t address arithmetic; LP64",
@@ -46,7 +53,10 @@ MANIFEST = {
             "stamped with the device's current source. Correspondence: one real instance (1..9 devices, both timer builds, origins "
             "near 2^32) and whole buses of real instances + reference ISO nodes under all schedules (2-3 claimants) / sampled schedules "
             "(4-6) / fully occupied range, compared line by line with the model, plus a model-independent oracle (uniqueness at "
-            "quiescence, lower NAME keeps, change reported, frame carries the address GetN2kSource reports at send time).",
+            "quiescence, lower NAME keeps, change reported, frame carries the address GetN2kSource reports at send time, nothing but "
+            "claims from an address above 251). Also: a claim / commanded address is handled whenever a receive slot is free or "
+            "recyclable modulo 2^32 (claim contention under receive-slot pressure across the clock wrap), and a device above 251 "
+            "sends nothing but claims whatever source the application preset.",
     'design_ref': 'DESIGN.md section 4, C03',
     'note': "partial: C03_converges_partial - liveness (the system reaches quiescence) is not proved, only the per-device progress "
             "measure. Trusted: Lean kernel; hand model validated by the differential runs; ISO 11783-5 spec file; ISO-TP reassembly "
